@@ -137,13 +137,23 @@ def opsRR (mode : Mode) (m : String) (addr : Nat) (d s : GReg) : Res (List Op) :
             ← regSet mode d te]
   | _ => .err .other
 
-/-- the `BlockTranslationResult` of one such instruction: one graph with one block, fall-through successor -/
+def mkInstrs (addr : Nat) : Nat → List Op → List Instr
+  | _, [] => []
+  | i, op :: rest => { index := i, addr := some addr, op := op } :: mkInstrs addr (i + 1) rest
+
+/-- the one-block instruction graph of a straight-line instruction -/
+def oneBlock (addr : Nat) (ops : List Op) : Function :=
+  { addr := addr
+    cfg := { blocks := [{ index := 0, nextInstr := ops.length, instrs := mkInstrs addr 0 ops }]
+             edges := [], entry := some 0, exit := some 0, nextIndex := 1, nextTemp := 0 } }
+
+/-- the `BlockTranslationResult` of a straight-line instruction: one graph with one block, fall-through successor -/
+def straight (addr len : Nat) (ops : List Op) : BTR :=
+  { addr := addr, length := len, instrs := [oneBlock addr ops], succs := [(addr + len, none)] }
+
 def liftRR (mode : Mode) (m : String) (addr len : Nat) (d s : GReg) : Res BTR := do
   let ops ← opsRR mode m addr d s
-  let instrs : List Instr := ops.zipIdx.map fun (op, k) => { index := k, addr := some addr, op := op }
-  let blk : Block := { index := 0, nextInstr := instrs.length, instrs := instrs }
-  let f : Function := { addr := addr, cfg := { blocks := [blk], edges := [], entry := some 0, exit := some 0, nextIndex := 1, nextTemp := 0 } }
-  pure { addr := addr, length := len, instrs := [f], succs := [(addr + len, none)] }
+  pure (straight addr len ops)
 
 /-- the class option (A) covers: these mnemonics with two general-register operands of equal width -/
 def inClassRR (i : Ins) : Option (GReg × GReg) :=
